@@ -70,8 +70,18 @@ def values_for(rule):
     return vals
 
 
+THOROUGH = [False]
+
+
 def paths_for(rule):
     ps = set(rr.instantiate(rule, values_for(rule)))
+    if THOROUGH[0]:
+        # thorough: also every path generated for any other rule of the universe, and their perturbations
+        for other in universe():
+            inst = rr.instantiate(other, values_for(other))
+            ps.update(inst)
+            for q in inst[:3]:
+                ps.update(rr.perturb(q))
     nw = sum(1 for a in rule if a[0] == 'W')
     if nw >= 2:
         vs = ['a', '1', 'aa', '1.5', 'bb', 'cc', '640', 'px', 'x/y', '007', '2']
@@ -89,9 +99,9 @@ SAME_MASK = [((L('i/'), W('n', 'int')), (L('r/'), W('n', 're', r'-?\d+'))),
 
 def shards(tier, seed):
     u = universe()
-    out = [('rule', i) for i in range(len(u))]
-    out += [('order', i) for i in range(len(SAME_MASK))]
-    out.append(('extra', seed % 4))
+    out = [('rule', i, tier) for i in range(len(u))]
+    out += [('order', i, tier) for i in range(len(SAME_MASK))]
+    out.append(('extra', seed % 4, tier))
     return out
 
 
@@ -185,7 +195,8 @@ def check_rule(res, rmod, rule):
 
 
 def work(spec):
-    kind, i = spec
+    kind, i, tier = spec
+    THOROUGH[0] = tier == 'thorough'
     res = core.new_result()
     sut.load()
     rmod = sut.sub('router.radirouter')
